@@ -744,6 +744,35 @@ def results_case(ck, env, sig, case, th, outs, req_pairs, rc, tok_t, thook, vhoo
             ck.failure("results:names", f"graph.output {[n for n, _ in got]} for requested {[n for n, _ in req_pairs]}", c2)
     elif all(t is not None and (t._is_concrete or not rc) for t in declared.values()):
         ck.failure("results:raises", f"all requested outputs have declared {'concrete ' if rc else ''}types but Graph.to_onnx raises {real['err']}: {real['msg']}", c2)
+    # the same through the public entry point: spox.build (always concrete=True) -> ModelProto
+    try:
+        keep = getattr(next(iter(outs.values()))._op, "_keep", [])
+        args_ = {f"a{i}": v for i, v in enumerate(keep) if type(getattr(v, "_op", None)).__name__ == "Argument"}
+        pub = None
+        try:
+            with warnings.catch_warnings():
+                warnings.simplefilter("ignore")
+                model = env.spox.build(args_, {n: outs[k] for n, k in req_pairs})
+            pub = [(o.name, Type._from_onnx(o.type)) for o in model.graph.output]
+        except Exception as e:  # noqa: BLE001
+            pub = e
+        stats["results_public"] = stats.get("results_public", 0) + 1
+        stats["results_public_built"] = stats.get("results_public_built", 0) + int(not isinstance(pub, Exception))
+        all_ok = all(t is not None and t._is_concrete for t in declared.values())
+        if isinstance(pub, Exception):
+            if all_ok and isinstance(pub, (TypeError, ValueError)) and ("type" in str(pub).lower() or "shape" in str(pub).lower()) \
+                    and "ok" in real:
+                ck.failure("results:raises", f"spox.build with the custom outputs as results raises {type(pub).__name__}: {str(pub)[:150]}", c2)
+        else:
+            for (n, t), (_, k) in zip(pub, req_pairs):
+                if declared[k] is None:
+                    ck.failure("results:untyped-accepted", f"spox.build writes output {k} (no type hook entry) out as {n}: {t}", c2)
+                elif t != declared[k]:
+                    ck.failure("results:type-mismatch", f"model.graph.output {n} carries {t}, the type hook declared {declared[k]} for {k}", c2)
+                elif not declared[k]._is_concrete:
+                    ck.failure("results:nonconcrete-accepted", f"spox.build writes output {k} declared {declared[k]} (no shape) out as {n}", c2)
+    except Exception as e:  # noqa: BLE001
+        ck.broken("correspondence", "public results facet not observable", f"{type(e).__name__}: {e}")
     reqs.append({"kind": "results", "thook": thook, "vhook": vhook, "check": passing, "req": req_pairs,
                  "concrete": [k for k, t in tok_t.items() if t._is_concrete], "rc": rc})
     metas.append(("results", sig, real))
